@@ -201,6 +201,12 @@ class MonitoredList(MonitoredContainer, list):
         super().append(item)
 
     def __setitem__(self, idx, value):
+        if isinstance(idx, slice):
+            # the assigned values can come from a one-shot iterator and can hold equal but distinct elements, every one
+            # of them is recorded like an appended element.
+            values = [self._on_add(v) for v in list(value)]
+            super().__setitem__(idx, values)
+            return
         value = self._on_add(value)
         super().__setitem__(idx, value)
 
